@@ -1,7 +1,9 @@
 (* Structural theorem about push: in a DAG, with no exception, the call log is
    exactly what the per-node update functions prescribe:
-   - every current downstream of an emitting node receives the element exactly once,
-     in attachment order, each cascade completing before the next sibling is called;
+   - every downstream of an emitting node (snapshot taken when the emission starts) that is still attached when its
+     turn comes receives the element exactly once, in attachment order, each cascade completing before the next sibling
+     is called; only a slice with an end can have left in between (it finished during an earlier hand-over of the same
+     emission), every permanent downstream is served;
    - the state of every node is the fold of its update over its arrivals;
    - the sequence carried by every (permanent) edge u->d is the sequence of
      outputs of u's update folded over u's arrivals: nothing lost, duplicated or reordered. *)
@@ -220,8 +222,11 @@ Definition PushOk (g : graph) (n depth : nat) (w : world) (x : val) (m : md) (w'
     Segment g n depth w new w' /\
     (forall d, is_down g n d = true -> permanent g d = true -> edge new n d = [(x, m)]) /\
     (forall e, In e new -> e_src e = n -> e_depth e = depth) /\
-    filter (fun e => e_depth e =? depth) new =
-      map (fun d => {| e_depth := depth; e_src := n; e_dst := d; e_val := x; e_md := m |}) (downs g w n).
+    exists keep : nat -> bool,
+      (forall d, permanent g d = true -> keep d = true) /\
+      filter (fun e => e_depth e =? depth) new =
+        map (fun d => {| e_depth := depth; e_src := n; e_dst := d; e_val := x; e_md := m |})
+            (filter keep (downs g w n)).
 
 Definition EmitSpec (g : graph) (emitfrom : nat -> world -> val -> md -> world * status) (depth : nat) : Prop :=
   forall d w y my w', WF g w -> emitfrom d w y my = (w', SOk) -> PushOk g d depth w y my w'.
@@ -259,6 +264,25 @@ Proof.
     + destruct (is_coroutine _); apply IH in H; discriminate.
     + apply IH in H. discriminate.
   - destruct (is_coroutine _); apply IH in H; discriminate.
+Qed.
+
+Lemma hand_ok_inv emitfrom g depth n x m : forall l w s w',
+  fold_left (hand emitfrom g depth n x m) l (w, s) = (w', SOk) -> s = SOk.
+Proof.
+  induction l as [|d t IH]; intros w s w' H; cbn [fold_left] in H; [congruence|].
+  destruct (hand_cases emitfrom g depth n x m w s d) as [E|[_ [_ E]]]; rewrite E in H.
+  - destruct (deliver emitfrom g depth n x m (w, s) d) as [w1 s1] eqn:Ed.
+    pose proof (IH _ _ _ H) as ->.
+    apply (deliver_ok_inv emitfrom g depth n x m [d] w s w1). exact Ed.
+  - eapply IH; eauto.
+Qed.
+
+(* ---- membership in the live set ------------------------------------------------ *)
+Lemma attached_In g w n d : attached g w n d = true <-> In d (downs g w n).
+Proof.
+  unfold attached. rewrite existsb_exists. split.
+  - intros [y [Hy E]]. apply Nat.eqb_eq in E. subst. exact Hy.
+  - intros H. exists d. split; [exact H | apply Nat.eqb_refl].
 Qed.
 
 (* ---- actions of one node ---------------------------------------------------- *)
@@ -506,38 +530,92 @@ Proof.
 Qed.
 
 (* ---- all downstreams of one emission ---------------------------------------- *)
-Lemma deliver_all_spec g emitfrom depth n x m :
-  wf_dag g -> EmitSpec g emitfrom (S depth) ->
-  forall l w w', WF g w -> (forall d, In d l -> is_down g n d = true) ->
-   fold_left (deliver emitfrom g depth n x m) l (w, SOk) = (w', SOk) ->
-   exists new, Segment g n depth w new w' /\
-     (forall dd, edge new n dd = map (fun _ => (x, m)) (filter (Nat.eqb dd) l)) /\
-     (forall e, In e new -> e_src e = n -> e_depth e = depth) /\
-     filter (fun e => e_depth e =? depth) new = map (fun d => mk_entry depth n d x m) l.
+Lemma downs_is_down g w n d : In d (downs g w n) -> is_down g n d = true.
 Proof.
-  intros Hdag HE. induction l as [|d t IH]; intros w w' Hwf Hl H; cbn [fold_left] in H.
-  - injection H as <-. exists []. split; [apply Segment_nil; exact Hwf|]. cbn. repeat split; auto; intros; contradiction.
-  - destruct (deliver emitfrom g depth n x m (w, SOk) d) as [w1 s1] eqn:E1.
-    pose proof (deliver_ok_inv _ _ _ _ _ _ _ _ _ _ H) as ->.
+  unfold downs, is_down. intros H. apply filter_In in H as [H1 H2]. apply in_seq in H1.
+  apply andb_true_iff in H2 as [H2 _]. rewrite H2. replace (d <? length g) with true; [reflexivity|].
+  symmetry. apply Nat.ltb_lt. lia.
+Qed.
+
+Lemma In_downs g w n d : In d (downs g w n) <-> is_down g n d = true /\ st_detached (nst w d) = false.
+Proof.
+  unfold downs, is_down. rewrite filter_In, in_seq, !andb_true_iff, Nat.ltb_lt, negb_true_iff. intuition lia.
+Qed.
+
+(* a permanent child is always in the live set *)
+Lemma attached_permanent g w n d :
+  WF g w -> is_down g n d = true -> permanent g d = true -> attached g w n d = true.
+Proof. intros [_ B] Hd Hp. apply attached_In, In_downs. split; [exact Hd | apply B, Hp]. Qed.
+
+Lemma filter_ext_notin (k1 k2 : nat -> bool) d t :
+  ~ In d t -> (forall d', d' <> d -> k1 d' = k2 d') -> filter k1 t = filter k2 t.
+Proof. intros Hn H. apply filter_ext_in. intros a Ha. apply H. intros ->. contradiction. Qed.
+
+(* one turn per element of the snapshot l; [keep] says which ones were still attached when their turn came *)
+Lemma hand_all_spec g emitfrom depth n x m :
+  wf_dag g -> EmitSpec g emitfrom (S depth) ->
+  forall l w w', WF g w -> NoDup l -> (forall d, In d l -> is_down g n d = true) ->
+   fold_left (hand emitfrom g depth n x m) l (w, SOk) = (w', SOk) ->
+   exists new keep, Segment g n depth w new w' /\
+     (forall d, permanent g d = true -> keep d = true) /\
+     (forall dd, edge new n dd = map (fun _ => (x, m)) (filter (Nat.eqb dd) (filter keep l))) /\
+     (forall e, In e new -> e_src e = n -> e_depth e = depth) /\
+     filter (fun e => e_depth e =? depth) new = map (fun d => mk_entry depth n d x m) (filter keep l).
+Proof.
+  intros Hdag HE. induction l as [|d t IH]; intros w w' Hwf Hnd Hl H; cbn [fold_left] in H.
+  - injection H as <-. exists [], (fun _ => true). split; [apply Segment_nil; exact Hwf|]. cbn. repeat split; auto; intros; contradiction.
+  - destruct (hand emitfrom g depth n x m (w, SOk) d) as [w1 s1] eqn:E1.
+    pose proof (hand_ok_inv _ _ _ _ _ _ _ _ _ _ H) as ->.
     assert (Hdn : is_down g n d = true) by (apply Hl; left; reflexivity).
-    destruct (deliver_spec _ _ _ _ _ _ _ _ _ Hdag HE Hwf Hdn E1) as [rest [S1 R1]].
-    destruct (is_down_In _ _ _ Hdn) as [Hd Hin]. pose proof (Hdag d n Hd Hin) as Hnd.
-    destruct (IH w1 w' (seg_wf _ _ _ _ _ _ S1) (fun d' Hd' => Hl d' (or_intror Hd')) H) as [new2 [S2 [E2 [D2 F2]]]].
-    exists ((mk_entry depth n d x m :: rest) ++ new2). split; [eapply Segment_app; eauto|].
-    assert (Hrest_edge : forall dd, edge rest n dd = []).
-    { intros dd. apply edge_none. intros e He. left. destruct (R1 e He) as [? _]. lia. }
-    split; [|split].
-    + intros dd. rewrite edge_app, E2. cbn [filter].
-      destruct (Nat.eqb_spec dd d) as [->|Hne].
-      * rewrite edge_cons_hit by reflexivity. rewrite Hrest_edge. reflexivity.
-      * rewrite edge_cons_miss by (right; cbn; lia). rewrite Hrest_edge. reflexivity.
-    + intros e He Hs. apply in_app_or in He as [[<-|He]|He]; [reflexivity| |apply D2; assumption].
-      destruct (R1 e He) as [? _]. lia.
-    + rewrite filter_app, F2. cbn [filter map app mk_entry e_depth]. rewrite Nat.eqb_refl.
-      replace (filter (fun e => e_depth e =? depth) rest) with (@nil entry); [reflexivity|].
-      symmetry. clear -R1. induction rest as [|e r IHr]; cbn; [reflexivity|].
-      destruct (R1 e (or_introl eq_refl)) as [_ Hdep].
-      destruct (Nat.eqb_spec (e_depth e) depth); [lia|]. apply IHr. intros e' He'. apply R1. right. exact He'.
+    destruct (is_down_In _ _ _ Hdn) as [Hd Hin]. pose proof (Hdag d n Hd Hin) as Hnd'.
+    inversion Hnd as [|? ? Hnotin Hnd2]; subst.
+    destruct (attached g w n d) eqn:Ha.
+    + (* still attached: the hand-over *)
+      rewrite hand_attached in E1 by exact Ha.
+      destruct (deliver_spec _ _ _ _ _ _ _ _ _ Hdag HE Hwf Hdn E1) as [rest [S1 R1]].
+      destruct (IH w1 w' (seg_wf _ _ _ _ _ _ S1) Hnd2 (fun d' Hd' => Hl d' (or_intror Hd')) H) as [new2 [keep2 [S2 [K2 [E2 [D2 F2]]]]]].
+      set (keep := fun d' => if d' =? d then true else keep2 d').
+      assert (Hkt : filter keep t = filter keep2 t).
+      { apply (filter_ext_notin keep keep2 d t Hnotin). intros d' Hne. unfold keep.
+        apply Nat.eqb_neq in Hne. rewrite Hne. reflexivity. }
+      assert (Hfk : filter keep (d :: t) = d :: filter keep2 t).
+      { cbn [filter]. replace (keep d) with true by (unfold keep; rewrite Nat.eqb_refl; reflexivity). rewrite Hkt. reflexivity. }
+      exists ((mk_entry depth n d x m :: rest) ++ new2), keep. split; [eapply Segment_app; eauto|].
+      assert (Hrest_edge : forall dd, edge rest n dd = []).
+      { intros dd. apply edge_none. intros e He. left. destruct (R1 e He) as [? _]. lia. }
+      split; [|split; [|split]].
+      * intros d' Hp. unfold keep. destruct (d' =? d); [reflexivity | apply K2, Hp].
+      * intros dd. rewrite edge_app, E2, Hfk. cbn [filter].
+        destruct (Nat.eqb_spec dd d) as [->|Hne].
+        -- rewrite edge_cons_hit by reflexivity. rewrite Hrest_edge. reflexivity.
+        -- rewrite edge_cons_miss by (right; cbn; lia). rewrite Hrest_edge. reflexivity.
+      * intros e He Hs. apply in_app_or in He as [[<-|He]|He]; [reflexivity| |apply D2; assumption].
+        destruct (R1 e He) as [? _]. lia.
+      * rewrite filter_app, F2, Hfk. cbn [filter map app mk_entry e_depth]. rewrite Nat.eqb_refl.
+        cbn [app].
+        replace (filter (fun e => e_depth e =? depth) rest) with (@nil entry); [reflexivity|].
+        symmetry. clear -R1. induction rest as [|e r IHr]; cbn; [reflexivity|].
+        destruct (R1 e (or_introl eq_refl)) as [_ Hdep].
+        destruct (Nat.eqb_spec (e_depth e) depth); [lia|]. apply IHr. intros e' He'. apply R1. right. exact He'.
+    + (* gone since the snapshot: only the reference retained for it is given back *)
+      rewrite hand_gone in E1 by (reflexivity || exact Ha). injection E1 as <-.
+      assert (Hnp : permanent g d = false).
+      { destruct (permanent g d) eqn:Hp; [|reflexivity].
+        rewrite (attached_permanent g w n d Hwf Hdn Hp) in Ha. discriminate. }
+      destruct (IH _ w' (WF_release _ _ _ _ Hwf) Hnd2 (fun d' Hd' => Hl d' (or_intror Hd')) H) as [new2 [keep2 [S2 [K2 [E2 [D2 F2]]]]]].
+      set (keep := fun d' => if d' =? d then false else keep2 d').
+      assert (Hkt : filter keep t = filter keep2 t).
+      { apply (filter_ext_notin keep keep2 d t Hnotin). intros d' Hne. unfold keep.
+        apply Nat.eqb_neq in Hne. rewrite Hne. reflexivity. }
+      destruct (release_frame w m 1) as [F1 F2r].
+      assert (Hfk : filter keep (d :: t) = filter keep2 t).
+      { cbn [filter]. replace (keep d) with false by (unfold keep; rewrite Nat.eqb_refl; reflexivity). exact Hkt. }
+      exists new2, keep. split; [eapply Segment_same_start; eauto|].
+      split; [|split; [|split]].
+      * intros d' Hp. unfold keep. destruct (Nat.eqb_spec d' d) as [->|]; [congruence | apply K2, Hp].
+      * intros dd. rewrite E2, Hfk. reflexivity.
+      * exact D2.
+      * rewrite F2, Hfk. reflexivity.
 Qed.
 
 Lemma filter_eqb_seq (P : nat -> bool) dd : forall len start,
@@ -563,11 +641,13 @@ Proof.
       * rewrite andb_true_r. reflexivity.
 Qed.
 
-Lemma downs_is_down g w n d : In d (downs g w n) -> is_down g n d = true.
+Lemma downs_NoDup g w n : NoDup (downs g w n).
+Proof. unfold downs. apply NoDup_filter, seq_NoDup. Qed.
+
+Lemma filter_comm {A} (p q : A -> bool) l : filter p (filter q l) = filter q (filter p l).
 Proof.
-  unfold downs, is_down. intros H. apply filter_In in H as [H1 H2]. apply in_seq in H1.
-  apply andb_true_iff in H2 as [H2 _]. rewrite H2. replace (d <? length g) with true; [reflexivity|].
-  symmetry. apply Nat.ltb_lt. lia.
+  induction l as [|a t IH]; [reflexivity|]. cbn [filter].
+  destruct (q a) eqn:Q; destruct (p a) eqn:P; cbn [filter]; rewrite ?Q, ?P, IH; reflexivity.
 Qed.
 
 (* ---- the push theorem ---------------------------------------------------------- *)
@@ -575,31 +655,50 @@ Theorem push_spec g : wf_dag g -> forall fuel depth, EmitSpec g (fun d => push f
 Proof.
   intros Hdag. induction fuel as [|fuel IH]; intros depth d w y my w' Hwf H; cbn [push] in H; [discriminate|].
   destruct (retain_frame w my (Z.of_nat (length (downs g w d)))) as [F1 F2].
-  destruct (deliver_all_spec g _ depth d y my Hdag (IH (S depth)) (downs g w d) _ w'
-              (WF_retain _ _ _ _ Hwf) (fun dd Hdd => downs_is_down _ _ _ _ Hdd) H) as [new [S [E [D F]]]].
-  exists new. split; [eapply Segment_same_start; eauto|]. split; [|split; [exact D | exact F]].
-  intros dd Hdn Hp. rewrite E. unfold downs. rewrite filter_eqb_seq.
+  destruct (hand_all_spec g _ depth d y my Hdag (IH (S depth)) (downs g w d) _ w'
+              (WF_retain _ _ _ _ Hwf) (downs_NoDup g w d) (fun dd Hdd => downs_is_down _ _ _ _ Hdd) H) as [new [keep [S [K [E [D F]]]]]].
+  exists new. split; [eapply Segment_same_start; eauto|]. split; [|split; [exact D | exists keep; split; [exact K | exact F]]].
+  intros dd Hdn Hp. rewrite E. rewrite filter_comm. unfold downs. rewrite filter_eqb_seq.
   destruct (is_down_In _ _ _ Hdn) as [Hlt _].
   unfold is_down in Hdn. apply andb_true_iff in Hdn as [_ Hdn]. rewrite Hdn.
   destruct Hwf as [_ B]. rewrite (B dd Hp).
   replace (0 <=? dd) with true by (symmetry; apply Nat.leb_le; lia).
-  replace (dd <? 0 + length g) with true by (symmetry; apply Nat.ltb_lt; lia). reflexivity.
+  replace (dd <? 0 + length g) with true by (symmetry; apply Nat.ltb_lt; lia).
+  cbn [andb negb filter]. rewrite (K dd Hp). reflexivity.
 Qed.
 
-(* Sibling order: the calls made directly by one emission (nesting depth = that of the emission)
-   are exactly one per current downstream, in attachment order, all with the emitted value and
-   metadata; everything logged in between belongs to deeper cascades. *)
+(* Sibling order: the calls made directly by one emission (nesting depth = that of the emission) are exactly one per
+   downstream of the snapshot that was still attached when its turn came ([keep]; every permanent downstream is), in
+   attachment order, all with the emitted value and metadata; everything logged in between belongs to deeper cascades.
+   (Only a slice with an end that finished during an earlier hand-over of the same emission - it is attached to several
+   upstreams - is skipped: Stream._emit tests `downstream not in self.downstreams` before each hand-over.) *)
 Theorem sibling_order g fuel depth n w x m w' :
   wf_dag g -> WF g w -> push fuel g depth n w x m = (w', SOk) ->
+  exists new keep, log w' = rev new ++ log w /\
+    (forall d, permanent g d = true -> keep d = true) /\
+    filter (fun e => e_depth e =? depth) new = map (fun d => mk_entry depth n d x m) (filter keep (downs g w n)) /\
+    (forall e, In e new -> depth <= e_depth e) /\
+    (forall e, In e new -> is_down g (e_src e) (e_dst e) = true).
+Proof.
+  intros Hdag Hwf H. destruct (push_spec g Hdag fuel depth n w x m w' Hwf H) as [new [S [_ [_ [keep [K F]]]]]].
+  exists new, keep. split; [exact (seg_log _ _ _ _ _ _ S)|]. split; [exact K|]. split; [exact F|]. split.
+  - intros e He. destruct (seg_ent _ _ _ _ _ _ S e He) as [_ [_ [_ ?]]]. assumption.
+  - exact (seg_along _ _ _ _ _ _ S).
+Qed.
+
+(* when no downstream of the emitting node is a slice with an end, nobody can leave: exactly one call per downstream *)
+Corollary sibling_order_permanent g fuel depth n w x m w' :
+  wf_dag g -> WF g w -> (forall d, In d (downs g w n) -> permanent g d = true) ->
+  push fuel g depth n w x m = (w', SOk) ->
   exists new, log w' = rev new ++ log w /\
     filter (fun e => e_depth e =? depth) new = map (fun d => mk_entry depth n d x m) (downs g w n) /\
     (forall e, In e new -> depth <= e_depth e) /\
     (forall e, In e new -> is_down g (e_src e) (e_dst e) = true).
 Proof.
-  intros Hdag Hwf H. destruct (push_spec g Hdag fuel depth n w x m w' Hwf H) as [new [S [_ [_ F]]]].
-  exists new. split; [exact (seg_log _ _ _ _ _ _ S)|]. split; [exact F|]. split.
-  - intros e He. destruct (seg_ent _ _ _ _ _ _ S e He) as [_ [_ [_ ?]]]. assumption.
-  - exact (seg_along _ _ _ _ _ _ S).
+  intros Hdag Hwf Hp H. destruct (sibling_order g fuel depth n w x m w' Hdag Hwf H) as [new [keep [A [K [F [B C]]]]]].
+  exists new. split; [exact A|]. split; [|split; assumption].
+  rewrite F. f_equal. clear -K Hp. induction (downs g w n) as [|d t IH]; [reflexivity|]. cbn [filter].
+  rewrite (K d (Hp d (or_introl eq_refl))). f_equal. apply IH. intros d' Hd'. apply Hp. right. exact Hd'.
 Qed.
 
 (* decidable well-formedness, for examples *)
